@@ -72,6 +72,8 @@ impl FragmentTree {
     }
 
     pub(crate) fn enclose_recursive(fragment_trees: Vec<Self>) -> Vec<Self> {
+        #[cfg(feature = "verif")]
+        let _depth = crate::verif::enter("enclose");
         let original_len = fragment_trees.len();
         let merged = Self::second_pass_enclose(fragment_trees);
         if merged.len() < original_len {
